@@ -341,7 +341,7 @@ CHECKS = {
                      "simnode's OBSERVE_SEQNO / cluster-map handling is the trusted server model (a node that holds no copy of the vBucket answers NOT_MY_VBUCKET with the current map; both agents follow map changes by CCCP polling)",
                      "a report change made in the same instant as a map change is NOT generated: it would race with the library's last poll rounds under the old map, where the old copy legitimately still counts"],
         units=[enum("TestC07_MinRuleExhaustive", 8, 16), rapid("TestC07_MinRuleRapid", 20000, 2000000), rapid("TestC07_Gate", 600, 40000, 8, 16),
-               rapid("TestC07_Integration", 48, 3000, 8, 16, shrinktime="20s")],
+               rapid("TestC07_Integration", 48, 3000, 8, 16, shrinktime="20s"), rapid("TestC07_StartupWakeup", 120, 6000, 4, 16, shrinktime="20s"), plain("TestC07_Fixed")],
         min_share=dict(any={"event_had_to_wait": ["gate_cases", 0.3], "closed_mid_run": ["gate_cases", 0.1],
                             "replica_moved_with_active_report": ["integration_cases", 0.02], "config_bump": ["integration_cases", 0.04]}),
     ),
